@@ -4,6 +4,7 @@ import Driver.C09
 import Driver.C05
 import Driver.C16
 import Driver.C17
+import Driver.C13
 
 def main (args : List String) : IO UInt32 := do
   let stdin ← IO.getStdin
@@ -14,4 +15,5 @@ def main (args : List String) : IO UInt32 := do
   | ["c05"] => Driver.lineLoop stdin stdout (⟨Zix.Ring.new 1, none⟩ : Driver.C05.St) Driver.C05.step; return 0
   | ["c16"] => Driver.lineLoop stdin stdout ([] : List (List Nat)) Driver.C16.step; return 0
   | ["c17"] => Driver.lineLoop stdin stdout () Driver.C17.step; return 0
+  | ["c13"] => Driver.lineLoop stdin stdout () Driver.C13.step; return 0
   | _ => IO.eprintln "usage: zixdriver <component> < script"; return 2
